@@ -20,7 +20,7 @@ I_COMPONENTS = {"real": ["cmd/zoekt-sourcegraph-indexserver Queue, backoff, inde
 B_COMPONENTS = {"real": ["index.Builder (Add/flush/buildShard/writeShard/Finish)", "ShardBuilder.Write", "index.SetTombstone/JsonMarshalRepoMetaTemp", "index.Merge/Explode", "search.NewDirectorySearcher as the observer", "real files in a private tmpfs directory"], "stub": ["os.* of the instrumented packages (simos: counts, fails, or kills the process at every operation)", "Parallelism=1 (no builder goroutines) in the enumerating harnesses"]}
 ENUM_ASSUME = ["kill = kill -9: completed system calls persist, nothing afterwards happens, deferred cleanup has no effect; power loss (lost page cache) is not modelled because zoekt never fsyncs", "crash/failure points are enumerated exhaustively per sampled scenario; scenarios are sampled by seed"]
 
-GROUPS = ["search", "ixserver", "grpcsim", "buildsim"]
+GROUPS = ["search", "ixserver", "grpcsim", "buildsim", "mergesim"]
 
 PROPS = {
     "C20": dict(
@@ -142,5 +142,26 @@ PROPS = {
         technique="deterministic fault enumeration: every file-system operation of a recorded index build is replayed as a kill point and as an I/O error point on the simulated disk; the resulting directory is judged old/new/mixed/unloadable by a fresh searcher",
         level_text="For each sampled scenario the real index.Builder run (replacing an existing index with more, fewer or equally many shards; delta builds that rewrite metadata sidecars; builds that tombstone the repository inside a compound shard) is executed once fault free (and must equal the document model), then once per kill point and per failing operation. After each execution a freshly started directory searcher must see exactly the old or exactly the new index of the repository (documents, contents, versions, branches, metadata), every *.zoekt file must load, other repositories must be untouched, and a run that completed with Finish()==nil must have installed the new index.",
         level_note="Exhaustive over the operations of each sampled scenario, sampled over scenarios. The inherent non-atomicity of installing several files (kill strictly between the first install rename and the end of the clean-up) is a recorded known finding with its own signature class; every other deviation is reported.",
+    ),
+    "C17": dict(
+        group="buildsim", level="fault_enumeration",
+        rule="one run = one compound shard of 2-5 repositories and a history of 3-10 operations (set / unset tombstone for known and unknown repository ids, file tombstone written into the sidecar). evaluations = executions followed by a reload+query: each operation fault free, then once per file-system operation of that operation as failing operation and (mutating ones) as kill point before / inside it, plus idempotence re-applications. distinct_nontrivial = distinct (history, fault kind, k, old/new/neither) tuples.",
+        harnesses=[dict(name="C17", quick=220, thorough=12000, quick_deadline_s=170, thorough_deadline_s=1500, ulimit_kb=24000000, env={"VERIF_GCPERCENT": "50", "VERIF_MEMLIMIT_MB": "2048"})],
+        expect_faults=["kill", "kill-in-write", "fail-rename", "fail-createtemp", "fail-write", "fail-open"],
+        components=B_COMPONENTS, assumptions=ENUM_ASSUME + ["reference model = set of tombstoned repository ids and (repository, path) pairs; expected results are the pristine compound shard's documents minus the tombstoned ones"],
+        technique="deterministic fault enumeration over generated tombstone histories: every file-system operation of every set/unset/file-tombstone operation is a kill point and an I/O-error point on the simulated disk; reload + query after each, compared with a set model",
+        level_text="Histories of SetTombstone/UnsetTombstone (known and unknown ids) and file-tombstone sidecar rewrites on a real compound shard; after every fault-free operation, after every enumerated failure/kill of each of its file-system operations, and after repeated application, a freshly started directory searcher is queried (match-all, content, repository-set, type:repo, list): tombstoned repositories and paths never appear, other repositories are unchanged, success implies the effect, a reported error implies no effect, a kill leaves the old or the new state, re-applying is a no-op, unset restores.",
+        level_note="Exhaustive over the operations of each sampled history, sampled over histories.",
+    ),
+    "C35": dict(
+        group="mergesim", level="fault_enumeration",
+        rule="one run = 2-4 input simple shards (some with metadata sidecars). merge() and then index.Explode() are each executed once fault free (recorded) and then once per file-system operation (open, read, create, write, rename, remove) as failing operation and, for mutating ones, as kill point before / inside it. distinct_nontrivial = distinct (inputs, phase, fault kind, k, resulting shard membership) tuples.",
+        harnesses=[dict(name="C35", quick=60, thorough=4000, quick_deadline_s=170, thorough_deadline_s=1500, ulimit_kb=24000000, env={"VERIF_GCPERCENT": "50", "VERIF_MEMLIMIT_MB": "2048"})],
+        expect_faults=["kill", "kill-in-write", "fail-open", "fail-rename", "fail-remove", "fail-createtemp", "fail-write"],
+        components={"real": ["cmd/zoekt-merge-index merge()", "index.Merge, index.Explode, builderWriteAll", "index.ReadMetadataPathAlive as the observer"], "stub": ["os.* of the instrumented packages (simos)"]},
+        assumptions=ENUM_ASSUME,
+        technique="deterministic fault enumeration: every file-system operation of a recorded merge and explode is replayed as kill point and as I/O-error point on the simulated disk; shard membership of every repository is read back from the directory",
+        level_text="For each sampled input set, merge and explode are enumerated over all their file-system operations: after every outcome no repository id is alive in two loadable *.zoekt files; a completed call that returned no error must have produced the documented post-state (merge: every input repository exactly in the returned compound shard, inputs gone; explode: every repository exactly in its own simple shard, compound shard gone).",
+        level_note="Exhaustive over operations per sampled input set.",
     ),
 }
